@@ -95,7 +95,19 @@ impl<'a> Display for FormatReportFormatter<'a> {
 
 fn annotation(error: &FormattingError) -> Option<Annotation<'_>> {
     let (range_start, range_length) = error.format_len();
-    let range_end = range_start + range_length;
+    // `format_len` counts columns (a tab is `tab_spaces` wide, every other character one), but the
+    // annotation is a byte range of the line: keep it inside the line and on character boundaries.
+    let line = &error.line_buffer;
+    let clamp = |pos: usize| {
+        let mut pos = pos.min(line.len());
+        while !line.is_char_boundary(pos) {
+            pos -= 1;
+        }
+        pos
+    };
+    let range_end = clamp(range_start + range_length);
+    let range_start = clamp(range_start);
+    let range_length = range_end - range_start;
 
     if range_length > 0 {
         Some(Level::Error.span(range_start..range_end))
